@@ -255,8 +255,66 @@ func c15Run(c *c15Case) (exp, act, sig string, ok bool) {
 		return c15Scan(p, c)
 	case "rows":
 		return c15Rows(p, c.Order)
+	case "alias":
+		// several Go values of ONE call that are views of the same memory: each placeholder denotes its own value
+		views, terms := c15Views()
+		args := make([]interface{}, len(c.Order))
+		var want []ref.Term
+		for i, k := range c.Order {
+			args[i] = views[k]
+			want = append(want, terms[k])
+		}
+		q := "X = f(" + strings.TrimSuffix(strings.Repeat("?, ", len(args)), ", ") + ") ."
+		wt := ref.C("f", want...)
+		exp = ref.Canon(wt, ref.NewNamer())
+		got, err := c15Query(p, q, args...)
+		if err != nil {
+			return exp, "error: " + err.Error(), "placeholder: Go value rejected (views of one backing array)", false
+		}
+		if !c15Same(got, wt) {
+			return exp, ref.Canon(got, ref.NewNamer()), "placeholder: views of one backing array do not denote their own values", false
+		}
+		// and through Exec: the loaded fact holds the same term
+		if err := p.Exec("fact("+strings.TrimSuffix(strings.Repeat("?, ", len(args)), ", ")+") .", args...); err != nil {
+			return exp, "error: " + err.Error(), "placeholder: Go value rejected by Exec (views of one backing array)", false
+		}
+		got, err = c15Query(p, "fact("+c15VarList(len(args))+"), X = f("+c15VarList(len(args))+") .")
+		if err != nil {
+			return exp, "error: " + err.Error(), "placeholder: fact loaded by Exec not found (views of one backing array)", false
+		}
+		if !c15Same(got, wt) {
+			return exp, ref.Canon(got, ref.NewNamer()), "placeholder: views of one backing array do not denote their own values (Exec)", false
+		}
+		return exp, exp, "", true
 	}
 	return "", "unknown kind", "harness", false
+}
+
+func c15VarList(n int) string {
+	var vs []string
+	for i := 0; i < n; i++ {
+		vs = append(vs, fmt.Sprintf("V%d", i))
+	}
+	return strings.Join(vs, ", ")
+}
+
+// c15Views returns Go values that share memory (slices of one backing array with the same and with different
+// starts and lengths, nested slices whose rows are such views, the same for int64 and float64 elements, and an
+// independent slice with equal contents) and the term each denotes.
+func c15Views() ([]interface{}, []ref.Term) {
+	li := func(xs ...int64) ref.Term {
+		var es []ref.Term
+		for _, x := range xs {
+			es = append(es, ref.Int(x))
+		}
+		return ref.List(es...)
+	}
+	b := []int{1, 2, 3, 4}
+	b64 := []int64{5, 6, 7}
+	fl := []float64{0.5, 1.5, 2.5}
+	views := []interface{}{b[:0], b[:1], b[:2], b, b[1:3], b[2:], []int{1, 2}, [][]int{b[:1], b[:3], b}, [][]int{b[1:2], b[1:4]}, b64[:1], b64, b64[1:], fl[:2], fl, [][]int{b[:2], {1, 2}, b[:2]}}
+	terms := []ref.Term{ref.Nil, li(1), li(1, 2), li(1, 2, 3, 4), li(2, 3), li(3, 4), li(1, 2), ref.List(li(1), li(1, 2, 3), li(1, 2, 3, 4)), ref.List(li(2), li(2, 3, 4)), li(5), li(5, 6, 7), li(6, 7), ref.List(ref.Flt(0.5), ref.Flt(1.5)), ref.List(ref.Flt(0.5), ref.Flt(1.5), ref.Flt(2.5)), ref.List(li(1, 2), li(1, 2), li(1, 2))}
+	return views, terms
 }
 
 // ---- Scan ------------------------------------------------------------------------------------------
@@ -708,6 +766,17 @@ func c15Work(w *h.W) {
 			return true
 		})
 	}
+	// views of one backing array: all sequences of 1..3 of the 15 views as the arguments of one call
+	nv, _ := c15Views()
+	for l := 1; l <= 3; l++ {
+		seqs(l, len(nv), func(idx []int) bool {
+			if !w.Mine() {
+				return true
+			}
+			emit(&c15Case{Kind: "alias", Order: append([]int{}, idx...)}, l)
+			return true
+		})
+	}
 	for _, a := range c15Answers() {
 		for _, d := range c15Dests {
 			if !w.Mine() {
@@ -730,7 +799,7 @@ func c15Replay(b []byte) (string, string, bool) {
 func init() {
 	h.Register(&h.Check{
 		ID:            "C15",
-		Rule:          "placeholders: ALL strings of length <= L over a 26-rune alphabet of syntax-significant characters (quotes, backslash, '.', ',', brackets, '|', '%', '?', ':', '-', space, newline, NUL, multi-byte, U+10FFFF, digit) plus strings that spell Prolog syntax, x double_quotes {codes, chars, atom, default} x 6 positions (top level, argument, list element, operand of a prefix operator, twice in one term, shared through a variable); integers of every Go width at their extremes, floats incl. +-max, denormal, -0.0, float32, nested slices/arrays; unsupported Go kinds must be rejected; every (placeholder count, argument count) pair in {0..3}^2 through Query and Exec; every text of <= 3 (4) items out of 10 (facts and rules with a placeholder - a string placeholder next to the literal it must equal -, plain clauses, directives incl. ones that change double_quotes, comments, nothing) x 0..3 arguments through Exec: an error iff the counts differ, and the loaded facts hold exactly the values. Scan: 61 answer values (integers around every width boundary, floats around the float32 range, atoms, lists proper/nested/mixed, partial and improper lists, compounds, unbound, and the same lists as answers of append/findall/sort/=../length, atom_chars/atom_codes and double-quoted strings) x 16 destination types x 3 carriers (struct, map, map with a second list-valued variable); every sequence of 2..4 scans into five different function-local struct types that share their name (different layouts, a prolog tag, an unexported field, one passed by value). Distinct = case.",
+		Rule:          "placeholders: ALL strings of length <= L over a 26-rune alphabet of syntax-significant characters (quotes, backslash, '.', ',', brackets, '|', '%', '?', ':', '-', space, newline, NUL, multi-byte, U+10FFFF, digit) plus strings that spell Prolog syntax, x double_quotes {codes, chars, atom, default} x 6 positions (top level, argument, list element, operand of a prefix operator, twice in one term, shared through a variable); integers of every Go width at their extremes, floats incl. +-max, denormal, -0.0, float32, nested slices/arrays; unsupported Go kinds must be rejected; every (placeholder count, argument count) pair in {0..3}^2 through Query and Exec; every text of <= 3 (4) items out of 10 (facts and rules with a placeholder - a string placeholder next to the literal it must equal -, plain clauses, directives incl. ones that change double_quotes, comments, nothing) x 0..3 arguments through Exec: an error iff the counts differ, and the loaded facts hold exactly the values. Scan: 61 answer values (integers around every width boundary, floats around the float32 range, atoms, lists proper/nested/mixed, partial and improper lists, compounds, unbound, and the same lists as answers of append/findall/sort/=../length, atom_chars/atom_codes and double-quoted strings) x 16 destination types x 3 carriers (struct, map, map with a second list-valued variable); every sequence of 2..4 scans into five different function-local struct types that share their name (different layouts, a prolog tag, an unexported field, one passed by value). Distinct = case.; aliasing: all sequences of <= 3 of 15 Go values that are VIEWS of shared memory (slices of one backing array with equal and different starts and lengths, nested slices whose rows are such views, int64 and float64 elements, an independent slice with equal contents) as the arguments of one Query and of one Exec - each placeholder denotes its own value",
 		Explanation:   "state = one (Go value, context) pair; transition = one Query with placeholders (the term bound to X is captured structurally and must equal the term the literal with exactly those runes denotes, so nothing in the string can have been read as syntax), or one Scan (the stored Go value must represent the answer exactly, or Scan returns an error)",
 		Assumptions:   []string{"a float32 destination may hold the nearest float32 of a value that is not representable; overflow to infinity or flush to zero must be an error", "a string destination may hold the text of any term"},
 		Work:          c15Work,
